@@ -11,7 +11,7 @@ from corankco.consensus import ConsensusFeature
 import corankco.algorithms.parcons.parcons as parcons_module
 from corankco.algorithms.rank_aggregation_algorithm import RankAggAlgorithm
 
-MAXOPT = {"quick": 6, "thorough": 7}
+MAXOPT = {"quick": 6, "thorough": 6}   # the brute-force optimum of 7 elements (7^7 position functions) costs ~15 s per case in vm_compute
 
 
 class Recorder(RankAggAlgorithm):
@@ -50,9 +50,9 @@ class ParConsSuite(Suite):
             cases.append({"s": p_scheme(rng), "D": cyclic_dataset(rng, 5 if tier == "quick" else 6)})
         for _ in range(90 if tier == "quick" else 1200):
             cases.append({"s": rng.choice([gen.UNIFYING, gen.UNIFYING, gen.EXTENDED, gen.UNIFYING_HALF, gen.GENERIC]),
-                          "D": sparse_component_dataset(rng, 5 if tier == "quick" else 7)})
+                          "D": sparse_component_dataset(rng, 5 if tier == "quick" else 6)})
         for _ in range(160 if tier == "quick" else 2500):
-            nmax = rng.choice([4, 5, 6, 6]) if tier == "quick" else rng.choice([5, 6, 7, 7])
+            nmax = rng.choice([4, 5, 6, 6]) if tier == "quick" else rng.choice([5, 6, 6, 6])
             cases.append({"s": opt_scheme(rng), "D": layered_dataset(rng, nmax, 5) if rng.random() < 0.7 else gen.random_dataset(rng, nmax, 5)})
         return cases
 
@@ -113,8 +113,8 @@ class ParConsSuite(Suite):
 if __name__ == "__main__":
     main("C06", [ParConsSuite()],
          level_note="the ILP solver (CBC through PuLP) and igraph's SCC routine are outside the model: their answers are judged per run "
-                    "against the verified brute-force optimum (universes <= 6, thorough 7) and the verified no-back-arc test",
+                    "against the verified brute-force optimum (universes <= 6) and the verified no-back-arc test",
          rule="one F2 witness; sparse-component datasets (a component of 3-4 conflicting elements and 2-4 rankings ranking none of them, "
               "schemes with B5 != T5); 3-ranking datasets over {0,1,2}; layered datasets (several components, rankings missing whole layers, some "
-              "rankings breaking the layering) and random datasets up to 6 (7) elements; schemes biased to B5 != T5; four ParCons "
+              "rankings breaking the layering) and random datasets up to 6 elements; schemes biased to B5 != T5; four ParCons "
               "configurations per dataset (bound 80 / 0 / 1 with KwikSort / 2 with BioConsert). non-trivial = >= 3 elements")
